@@ -24,8 +24,9 @@ from tornado.httpclient import HTTPRequest, _RequestProxy
 from tornado.simple_httpclient import _HTTPConnection
 
 BODY = b"abcdefgh"
-CHUNKED = b"3\r\nabc\r\n2\r\nde\r\n0\r\n\r\n"      # decodes to b"abcde"; complete only if fully received
-CHUNKED_BODY = b"abcde"
+CHUNKED = b"1\r\na\r\n1\r\nb\r\n0\r\n\r\n"      # decodes to b"ab" (two chunks); complete only if fully received
+CHUNKED_BODY = b"ab"
+_CL_ALPHABET = "0123456789, +-x\t"
 _TE_POOL = ("chunked", "Chunked", "CHUNKED", "gzip", "chunked, gzip", "gzip, chunked", " chunked", "identity", "")
 
 
@@ -73,10 +74,16 @@ def _digits(s):
 
 
 def pre_fr(code: int, head: bool, cl: Optional[str], ti: int, nb: int, maxb: int, interim: int) -> bool:
-    if not (100 <= code <= 599 and 0 <= nb <= P.NB and 0 <= maxb <= P.MB and 0 <= interim <= 2):
+    if not (200 <= code <= 599 and 0 <= nb <= P.NB and 0 <= maxb <= P.MB and 0 <= interim <= 2):
         return False
-    if cl is not None and len(cl) > P.LCL:
-        return False
+    if cl is not None:
+        if len(cl) > P.LCL:
+            return False
+        for ch in cl:
+            # alphabet of the Content-Length value: tornado's error messages format the value with %s, which
+            # realises it; an unrestricted code point would be enumerated value by value
+            if ch not in _CL_ALPHABET:
+                return False
     if not 0 <= ti <= len(_TE_POOL):
         return False
     return in_shard((0 if cl is None else 1 + len(cl)) + (P.LCL + 2) * ((0 if ti == 0 else 1) + 2 * interim))
@@ -95,13 +102,13 @@ def pre_fr(code: int, head: bool, cl: Optional[str], ti: int, nb: int, maxb: int
            "http1connection.parse_int", "httputil.parse_response_start_line", "httputil.HTTPHeaders.add"],
     stubs=["VLoop/FakeAio (vp/env.py), FakeStream (vp/fakestream.py: read contracts of C11)",
            "header blocks are handed over pre-delimited and pre-parsed: _parse_headers is replaced by a feeder that "
-           "returns an already parsed ResponseStartLine(code symbolic int 100..599) (parse_response_start_line is "
+           "returns an already parsed ResponseStartLine(code symbolic int 200..599; a final 1xx would only realise the code through the %d error message) (parse_response_start_line is "
            "bypassed: status-line grammar is the Engine-B obligation) and an HTTPHeaders built with the real add() "
            "from the symbolic Content-Length / Transfer-Encoding values (header-block parsing itself: C01/C06)",
            "interim = 0: none, "
            "1: '100 Continue' first, 2: a 100 that (illegally) carries Content-Length",
            "body bytes on the wire are a concrete prefix of b'abcdefgh' of symbolic length nb (or a fixed chunked "
-           "encoding of b'abcde' with the last nb bytes missing), followed by EOF"],
+           "encoding of b'ab' (two 1-byte chunks) with the last nb bytes missing), followed by EOF"],
     outside=["segmentation (composition with C11 through FakeStream's contract)", "chunk-size syntax (C01-4 twin)",
              "Content-Length values longer than LCL chars, Transfer-Encoding spellings outside the pool (the case-insensitive comparison on a free 7-char string costs 0.5 s/solver query)", "TLS / real sockets"],
 )
